@@ -151,6 +151,12 @@ type shardResult struct {
 // are reported through orderFail(prevIn, prevOut, in, out).
 func runSeq(c *core.Ctx, gen seqGen, nshards int, newEval func() func(in, out []int64),
 	point func(in, out int64), orderFail func(pi, po, in, out int64)) int64 {
+	return runSeqStrict(c, gen, nshards, false, newEval, point, orderFail)
+}
+
+// runSeqStrict: with strict, equal consecutive outputs are order failures too.
+func runSeqStrict(c *core.Ctx, gen seqGen, nshards int, strict bool, newEval func() func(in, out []int64),
+	point func(in, out int64), orderFail func(pi, po, in, out int64)) int64 {
 	res := make([]shardResult, nshards)
 	var mu sync.Mutex
 	_ = mu
@@ -169,7 +175,7 @@ func runSeq(c *core.Ctx, gen seqGen, nshards int, newEval func() func(in, out []
 			for i := 0; i < n; i++ {
 				point(in[i], out[i])
 				if r.any {
-					if out[i] < r.lastOut {
+					if out[i] < r.lastOut || (strict && out[i] == r.lastOut) {
 						orderFail(r.lastIn, r.lastOut, in[i], out[i])
 					}
 				} else {
@@ -191,7 +197,7 @@ func runSeq(c *core.Ctx, gen seqGen, nshards int, newEval func() func(in, out []
 		if !r.any {
 			continue
 		}
-		if prev != nil && r.firstOut < prev.lastOut {
+		if prev != nil && (r.firstOut < prev.lastOut || (strict && r.firstOut == prev.lastOut)) {
 			orderFail(prev.lastIn, prev.lastOut, r.firstIn, r.firstOut)
 		}
 		prev = r
